@@ -1,7 +1,7 @@
 (* Extraction of the client model for the client-history correspondence runs. *)
 From Coq Require Import Extraction ExtrOcamlBasic.
-From Iodine Require Import Codec Hostname DnsName DnsMsg Server Client.
+From Iodine Require Import Codec Hostname DnsName DnsMsg Server Client ClientLoop.
 Extraction Language OCaml.
 Set Extraction Optimize.
-Extraction "extracted/model_cli.ml" Client.cstep Client.client_init Client.reads_tun Client.select_timeout_ms
+Extraction "extracted/model_cli.ml" ClientLoop.lstep ClientLoop.mkl Client.cstep Client.client_init Client.reads_tun Client.select_timeout_ms
   Server.zc_frame Server.unz_frame DnsMsg.write_dns DnsMsg.buf64k.
